@@ -385,7 +385,7 @@ theorem step_bgStart {st st' : St} (h : step st .bgStart = some st') :
     exact ⟨by simpa using h1, h.symm⟩
 
 theorem step_bgMid {st st' : St} {fd bc er : Bool} (h : step st (.bgMid fd bc er) = some st') :
-    st.bg = .working ∧ True ∧ st.bgError = false ∧
+    st.bg = .working ∧ True ∧ (er = true → st.bgError = false) ∧
       (fd = true → st.imm = true) ∧
       st' = (if bc || er then broadcastBg else id)
         { st with imm := if fd then false else st.imm, bgError := if er then true else st.bgError } := by
@@ -400,7 +400,8 @@ theorem step_bgMid {st st' : St} {fd bc er : Bool} (h : step st (.bgMid fd bc er
       · cases h
       · rename_i h3
         simp only [Option.some.injEq] at h
-        refine ⟨by simpa using h1, trivial, by simpa using h2, ?_, ?_⟩
+        refine ⟨by simpa using h1, trivial, ?_, ?_, ?_⟩
+        · intro he; subst he; simpa using h2
         · intro hfd; simpa [hfd] using h3
         · subst h
           cases fd <;> cases er <;> cases bc <;> simp
